@@ -31,6 +31,8 @@ pub struct Parks {
     pub distinct: std::collections::HashSet<u64>,
     /// client addresses of the sessions whose Mux::ready ran out of its iteration budget
     pub budget: std::collections::HashSet<String>,
+    /// client address -> the last snapshot of that session that showed the head-of-line cycle
+    pub hol: std::collections::HashMap<String, (u64, String, String, String)>,
 }
 pub static PARKS: Mutex<Option<Parks>> = Mutex::new(None);
 
@@ -94,7 +96,7 @@ pub fn project_park(front: &str, backs: &str, streams: &str) -> Vec<Value> {
 
 pub fn install_park_sink(path: Option<&str>) {
     let out = path.map(|p| std::io::BufWriter::new(std::fs::File::create(p).expect("parks file")));
-    *PARKS.lock().unwrap() = Some(Parks { last: Default::default(), seq: 0, out, written: 0, distinct: Default::default(), budget: Default::default() });
+    *PARKS.lock().unwrap() = Some(Parks { last: Default::default(), seq: 0, out, written: 0, distinct: Default::default(), budget: Default::default(), hol: Default::default() });
     sozu_lib::verif::install(Box::new(|e| {
         if e.kind == "mux_loop_budget" {
             let peer = e.strs.iter().find(|(n, _)| *n == "peer").map(|(_, v)| v.clone()).unwrap_or_default();
@@ -127,6 +129,12 @@ pub fn install_park_sink(path: Option<&str>) {
                     }
                 }
             }
+            if hol_cycle(&front, &backs, &streams) {
+                p.hol.insert(peer.clone(), (seq, front.clone(), backs.clone(), streams.clone()));
+                if p.hol.len() > 20_000 {
+                    p.hol.clear();
+                }
+            }
             p.last.insert(peer, (seq, front, backs, streams));
             if p.last.len() > 20_000 {
                 let cut = seq.saturating_sub(200_000);
@@ -139,15 +147,21 @@ pub fn install_park_sink(path: Option<&str>) {
 /// last snapshot of the session whose client socket is `peer`, with the head-of-line verdict
 pub fn park_of(peer: &str) -> Option<Value> {
     let g = PARKS.lock().unwrap();
-    let s = g.as_ref()?.last.get(peer)?;
-    Some(json!({"seq":s.0,"front":s.1,"backs":s.2,"streams":s.3,"hol":hol_cycle(&s.1, &s.2, &s.3)}))
+    let p = g.as_ref()?;
+    // a session that was seen in the head-of-line cycle stays flagged: later snapshots show its teardown
+    if let Some(s) = p.hol.get(peer) {
+        return Some(json!({"seq":s.0,"front":s.1,"backs":s.2,"streams":s.3,"hol":true}));
+    }
+    let s = p.last.get(peer)?;
+    Some(json!({"seq":s.0,"front":s.1,"backs":s.2,"streams":s.3,"hol":false}))
 }
 
 /// both the frontend H2 connection and an H2 backend connection have stopped reading because the stream
 /// their next DATA frame belongs to has no buffer room (the connection-wide read is parked)
 pub fn hol_cycle(front: &str, backs: &str, streams: &str) -> bool {
     let parked = |ep: &str, field: &str| -> bool {
-        if kv(ep, "proto") != Some("h2") || kvi(ep, "int") & 1 != 0 {
+        // neither reading nor writing: the connection waits for a buffer that only the other one can free
+        if kv(ep, "proto") != Some("h2") || kvi(ep, "int") & 3 != 0 {
             return false;
         }
         let gid = kvi(ep, "er");
@@ -450,7 +464,7 @@ impl Rig {
                 bytes += sev.iter().filter(|e| e["k"] == "sent").map(|e| e["len"].as_u64().unwrap_or(0)).sum::<u64>();
                 classes.push(format!("{kind}/{}/{:?}/{}/{}", dir_name(d as u8), mp.framing, size_class(mp.size, self.buffer_size), rp.rdelay_us > 0 || rp.h2_window < 65535));
                 let hdr = json!({"ev":"msg","run":run,"s":sp.idx,"d":dir_name(d as u8),"ns":sev.len(),"nr":rev.len(),"pair":kind,"nstreams":plan.streams.len(),
-                    "companion_aborted":companion_aborted,"park_hol":park_hol,"budget_kill":budget_kill,"msg":msg_json(mp),"reader":read_json(rp),"cluster":cluster,"seed":plan.seed.to_string()});
+                    "companion_aborted":companion_aborted,"park_hol":park_hol,"budget_kill":budget_kill,"park":park.as_ref().map(|p| format!("{} || {} || {}", p["front"].as_str().unwrap_or(""), p["backs"].as_str().unwrap_or(""), p["streams"].as_str().unwrap_or(""))).unwrap_or_default(),"msg":msg_json(mp),"reader":read_json(rp),"cluster":cluster,"seed":plan.seed.to_string()});
                 msgs.push((hdr, sev, rev));
             }
         }
@@ -560,7 +574,8 @@ pub fn make_plan(run: u64, seed: u64, k: usize, b: u64, big: bool, aborts: bool)
         let client_read = read_plan(&mut rng, resp.size);
         streams.push(StreamPlan { idx: i as u32, req, resp, backend_read, client_read });
     }
-    let mut p = RunPlan { run, seed, front_h2, back_h2, back_variant: rng.below(2) as u8, streams };
+    let second_wave = front_h2 && rng.chance(1, 2);
+    let mut p = RunPlan { run, seed, front_h2, back_h2, back_variant: rng.below(2) as u8, second_wave, streams };
     if aborts && rng.chance(1, 10) {
         let i = rng.below(p.streams.len() as u64) as usize;
         let m = if rng.chance(1, 2) { &mut p.streams[i].req } else { &mut p.streams[i].resp };
